@@ -60,6 +60,11 @@ func runC13(e *Engine, g G, o RunOpt) RunInfo {
 		sc.Client.Insecure = false
 		sc.Client.TLS = TLSCfgRoots
 		sc.Client.TLSMax12 = true
+		if g.Pct("tls-server-name", 35) {
+			// the application names the host to check at the TLS layer (the server shows a certificate
+			// for both names as long as all is well)
+			sc.Client.ServerName = "alt.example"
+		}
 	}
 	sc.ResumeHook = g.Pct("resume-hook", 30)
 	nr := g.Range("rounds", 1, 4)
@@ -90,7 +95,13 @@ func runC13(e *Engine, g G, o RunOpt) RunInfo {
 			if sc.TLS && g.Bool("permanent-kind") {
 				// the server answers the TLS handshake with an alert (it insists on a protocol version the
 				// application does not allow): a verdict on the TLS policy, not a lost connection
-				rd.Attempts = append(rd.Attempts, []string{"permanent-tls-alert", "permanent-no-starttls"}[g.N("permanent-tls-kind", 2)])
+				kinds := []string{"permanent-tls-alert", "permanent-no-starttls"}
+				if sc.Client.ServerName != "" {
+					// the certificate is good for the host name the application asked the TLS layer to
+					// check, but not for the XMPP domain
+					kinds = append(kinds, "permanent-cert-not-for-domain")
+				}
+				rd.Attempts = append(rd.Attempts, kinds[g.N("permanent-tls-kind", len(kinds))])
 			} else {
 				rd.Attempts = append(rd.Attempts, "permanent-auth")
 				rd.AfterFailure = g.Weighted("after-failure", 5, 2, 3)
@@ -129,6 +140,9 @@ func runC13(e *Engine, g G, o RunOpt) RunInfo {
 		if sc.TLS {
 			s.StartTLS = TLSRequired
 			s.Cert = CertGood
+			if sc.Client.ServerName != "" {
+				s.Cert = CertBoth
+			}
 		}
 		s.SM = sc.Client.SM
 		if !resumeOK {
@@ -171,6 +185,8 @@ func runC13(e *Engine, g G, o RunOpt) RunInfo {
 					s.AuthFailDrop = rd.AfterFailure
 				case "permanent-tls-alert":
 					s.TLS13Only = true
+				case "permanent-cert-not-for-domain":
+					s.Cert = CertAltName
 				case "permanent-no-starttls":
 					// the server does not offer STARTTLS (any more): with TLS required that is final
 					s.StartTLS = TLSNone
